@@ -289,8 +289,16 @@ pub fn run(ctx: &Ctx, rep: &mut Report) {
         Tier::Thorough => (8_000, 40),
     };
     run_prop(ctx, rep, "attach", case_strategy(steps), n, 40, check);
+    let n_client = match ctx.tier {
+        Tier::Quick => 4_000,
+        Tier::Thorough => 400_000,
+    };
+    run_prop(ctx, rep, "client", crate::c12b::client_strategy(), n_client, 2000, crate::c12b::check_client);
 }
 
-pub fn replay(_sub: &str, case: &serde_json::Value) -> Result<CaseInfo, Fail> {
+pub fn replay(sub: &str, case: &serde_json::Value) -> Result<CaseInfo, Fail> {
+    if sub.starts_with("client") {
+        return replay_case::<crate::c12b::ClientCase, _>(case, crate::c12b::check_client);
+    }
     replay_case::<Case, _>(case, check)
 }
